@@ -9,7 +9,7 @@ use std::collections::BTreeSet;
 use std::sync::Mutex;
 use std::time::Instant;
 
-const CLASSES: &[&str] = &["exact", "refused_out_of_range", "operator_panics", "day_truncation", "day_count_refused", "crosses_year", "crosses_400y", "iter_exhausted", "range_end_reached", "depth2", "offset_pair"];
+const CLASSES: &[&str] = &["exact", "refused_out_of_range", "operator_panics", "day_truncation", "day_count_refused", "crosses_year", "crosses_400y", "iter_exhausted", "range_end_reached", "depth2", "offset_pair", "sibling_exact", "sibling_panics"];
 const EXACT: usize = 0;
 const REFUSED: usize = 1;
 const OP_PANIC: usize = 2;
@@ -21,6 +21,8 @@ const ITER_END: usize = 7;
 const RANGE_END: usize = 8;
 const DEPTH2: usize = 9;
 const OFFPAIR: usize = 10;
+const SIB: usize = 11;
+const SIB_PANIC: usize = 12;
 
 fn inst_ok(i: i128) -> bool {
     i >= MIN_INST && i <= MAX_INST
@@ -89,6 +91,73 @@ fn step_ndt(acc: &mut Acc, inst: i128, d: i128, out: Option<&mut BTreeSet<i128>>
             (Ok(v), Some(r)) if v == r => {}
             (Err(_), None) => acc.hit(OP_PANIC),
             (op, got) => acc.violation("NaiveDateTime:operator-vs-checked", format!("NaiveDateTime({}) {} TimeDelta({} ns)", show(inst), if neg { "-" } else { "+" }, d), format!("{:?}", got), format!("{:?}", op)),
+        }
+    }
+}
+
+/// judge one sibling form: the value of the exact instant, or a panic exactly when that instant is not representable
+fn sib<T: PartialEq + std::fmt::Debug>(acc: &mut Acc, key: &'static str, got: Result<T, String>, want: Option<T>, call: impl FnOnce() -> String) {
+    acc.transitions += 1;
+    match (got, want) {
+        (Ok(v), Some(w)) if v == w => acc.hit(SIB),
+        (Err(_), None) => acc.hit(SIB_PANIC),
+        (got, want) => acc.violation(key, call(), match &want { Some(w) => format!("{:?}", w), None => "panic (result not representable)".into() }, format!("{:?}", got)),
+    }
+}
+
+/// The less-travelled forms of the same additions: assign operators, std::time::Duration operands, FixedOffset operands,
+/// Days operands on date-times, and the NaiveDate forms; each must produce the exact instant or panic (refusal by
+/// these forms is documented as a panic) exactly when the instant is not representable.
+fn siblings(acc: &mut Acc, inst: i128, d: i128, offs: &[i32]) {
+    let s = mk_ndt_inst(inst);
+    let td = mk_delta(d);
+    let ndt = |i: i128| if inst_ok(i) { Some(mk_ndt_inst(i)) } else { None };
+    let fo0 = FixedOffset::east_opt(offs[1 % offs.len()]).unwrap();
+    let dt = fo0.from_utc_datetime(&s);
+    let dtv = |i: i128| ndt(i).map(|n| fo0.from_utc_datetime(&n));
+    for neg in [false, true] {
+        let target = if neg { inst - d } else { inst + d };
+        let sign = if neg { "-=" } else { "+=" };
+        sib(acc, "NaiveDateTime:assign-TimeDelta", guard(|| { let mut x = s; if neg { x -= td } else { x += td }; x }), ndt(target), || format!("x = NaiveDateTime({}); x {} TimeDelta({} ns)", show(inst), sign, d));
+        sib(acc, "DateTime:assign-TimeDelta", guard(|| { let mut x = dt; if neg { x -= td } else { x += td }; x }).map(|x| (x, x.offset().local_minus_utc())), dtv(target).map(|x| (x, fo0.local_minus_utc())), || format!("x = DateTime({}Z at {}); x {} TimeDelta({} ns)", show(inst), fo0, sign, d));
+        if d >= 0 && d / NS <= u64::MAX as i128 {
+            let sd = std::time::Duration::new((d / NS) as u64, (d % NS) as u32);
+            sib(acc, "NaiveDateTime:op-std-Duration", guard(|| if neg { s - sd } else { s + sd }), ndt(target), || format!("NaiveDateTime({}) {} std Duration({} ns)", show(inst), &sign[..1], d));
+            sib(acc, "NaiveDateTime:assign-std-Duration", guard(|| { let mut x = s; if neg { x -= sd } else { x += sd }; x }), ndt(target), || format!("x = NaiveDateTime({}); x {} std Duration({} ns)", show(inst), sign, d));
+            sib(acc, "DateTime:op-std-Duration", guard(|| if neg { dt - sd } else { dt + sd }), dtv(target), || format!("DateTime({}Z at {}) {} std Duration({} ns)", show(inst), fo0, &sign[..1], d));
+            sib(acc, "DateTime:assign-std-Duration", guard(|| { let mut x = dt; if neg { x -= sd } else { x += sd }; x }), dtv(target), || format!("x = DateTime({}Z at {}); x {} std Duration({} ns)", show(inst), fo0, sign, d));
+        }
+        // whole days through Days on the date-time forms (the time of day is kept; wall clock = UTC + offset)
+        if d >= 0 && d % DAY_NS == 0 && d / DAY_NS <= u64::MAX as i128 {
+            let n = (d / DAY_NS) as u64;
+            let want = ndt(target);
+            sib(acc, "NaiveDateTime:op-Days", guard(|| if neg { s - Days::new(n) } else { s + Days::new(n) }), want, || format!("NaiveDateTime({}) {} Days::new({})", show(inst), &sign[..1], n));
+            acc.transitions += 1;
+            let c = if neg { s.checked_sub_days(Days::new(n)) } else { s.checked_add_days(Days::new(n)) };
+            if c != want {
+                acc.violation("NaiveDateTime::checked_add_days", format!("NaiveDateTime({}).checked_{}_days(Days::new({}))", show(inst), if neg { "sub" } else { "add" }, n), format!("{:?}", want), format!("{:?}", c));
+            }
+        }
+        // the date forms: whole days of the duration, time untouched
+        let z = inst.div_euclid(DAY_NS);
+        let date = mk_date(z as i64);
+        let whole = if d >= 0 { d / DAY_NS } else { -((-d) / DAY_NS) };
+        let tz = if neg { z - whole } else { z + whole };
+        let wantd = if tz >= MIN_DAY as i128 && tz <= MAX_DAY as i128 { Some(mk_date(tz as i64)) } else { None };
+        sib(acc, "NaiveDate:assign-TimeDelta", guard(|| { let mut x = date; if neg { x -= td } else { x += td }; x }), wantd, || format!("x = NaiveDate({:?}); x {} TimeDelta({} ns)", date, sign, d));
+    }
+    // FixedOffset operands: a shift by the offset's seconds
+    for &o in offs {
+        let fo = FixedOffset::east_opt(o).unwrap();
+        for neg in [false, true] {
+            let target = if neg { inst - o as i128 * NS } else { inst + o as i128 * NS };
+            sib(acc, "NaiveDateTime:op-FixedOffset", guard(|| if neg { s - fo } else { s + fo }), ndt(target), || format!("NaiveDateTime({}) {} FixedOffset({})", show(inst), if neg { "-" } else { "+" }, fo));
+            sib(acc, "DateTime:op-FixedOffset", guard(|| if neg { dt - fo } else { dt + fo }).map(|x| (x, x.offset().local_minus_utc())), dtv(target).map(|x| (x, fo0.local_minus_utc())), || format!("DateTime({}Z at {}) {} FixedOffset({})", show(inst), fo0, if neg { "-" } else { "+" }, fo));
+            acc.transitions += 2;
+            let c = if neg { s.checked_sub_offset(fo) } else { s.checked_add_offset(fo) };
+            if c != ndt(target) {
+                acc.violation("NaiveDateTime::checked_add_offset", format!("NaiveDateTime({}).checked_{}_offset({})", show(inst), if neg { "sub" } else { "add" }, fo), format!("{:?}", ndt(target)), format!("{:?}", c));
+            }
         }
     }
 }
@@ -381,8 +450,8 @@ fn main() {
     let spec = Spec {
         property: "C03",
         classes: CLASSES,
-        required: &["exact", "refused_out_of_range", "operator_panics", "day_truncation", "day_count_refused", "crosses_year", "crosses_400y", "iter_exhausted", "range_end_reached", "depth2", "offset_pair"],
-        rule: "history exploration: seeds B_date x B_time (non-leap) as NaiveDateTime; actions +-d for every d of the duration alphabet through checked_add_signed / checked_sub_signed / operators (panic iff refused), to depth 2 with deduplication on the instant; after each action the distance back, b+(a-b)=a and the order are checked; the same steps through DateTime<FixedOffset> at several offsets; NaiveDate x durations (whole-day truncation) and x Days counts from the u64 lattice; all dates x fixed day steps (sweep); day/week iterators forward and backward from boundary dates (bounded prefix) and to exhaustion near both range ends with size_hint checked at every step; non-trivial = refusal, year/400-year crossing, truncation, iterator end, range end reached exactly",
+        required: &["exact", "refused_out_of_range", "operator_panics", "day_truncation", "day_count_refused", "crosses_year", "crosses_400y", "iter_exhausted", "range_end_reached", "depth2", "offset_pair", "sibling_exact", "sibling_panics"],
+        rule: "history exploration: seeds B_date x B_time (non-leap) as NaiveDateTime; actions +-d for every d of the duration alphabet through checked_add_signed / checked_sub_signed / operators (panic iff refused), to depth 2 with deduplication on the instant; after each action the distance back, b+(a-b)=a and the order are checked; the same steps through DateTime<FixedOffset> at several offsets and through the sibling forms (+= / -=, std::time::Duration operands, FixedOffset operands, Days on date-times, checked_add_offset); NaiveDate x durations (whole-day truncation) and x Days counts from the u64 lattice; all dates x fixed day steps (sweep); day/week iterators forward and backward from boundary dates (bounded prefix) and to exhaustion near both range ends with size_hint checked at every step; non-trivial = refusal, year/400-year crossing, truncation, iterator end, range end reached exactly",
         assumptions: &["durations between alphabet members rely on the i128 model being uniform between the carries the alphabet brackets (second, day, year, 400-year cycle, range span, i32 days)", "leap-second operands are excluded here (C07)"],
     };
     let tier = args.tier;
@@ -422,6 +491,7 @@ fn main() {
                     let inst = z as i128 * DAY_NS + s as i128 * NS + n as i128;
                     for &d in &durs {
                         step_dt(acc, inst, d, &offs);
+                        siblings(acc, inst, d, &offs);
                     }
                 }
                 depth1.lock().unwrap().extend(out);
